@@ -220,6 +220,12 @@ class SimRawIO(io.RawIOBase):
                 s._fds.pop(fd, None)
             if s.active:
                 s._event('close.w' if self._writing else 'close', self._rel, 'ok')
+                if s.hook is not None and not s._inside:
+                    s._inside += 1
+                    try:
+                        s.hook(s, s.n, 'close.w' if self._writing else 'close', self._rel)
+                    finally:
+                        s._inside -= 1
                 if self._writing and self._stamp and path is not None:
                     # stamp the written file with the simulated clock
                     try:
@@ -264,7 +270,7 @@ class Seam:
     def __init__(self, root, order_key=None, faults=None, mounts=None,
                  clock=None, virtual_root=False, step_cap=None,
                  read_chunks=None, stamp_writes=True, zero_size=None,
-                 default_dev=None, hook=None):
+                 default_dev=None, hook=None, order_alias=()):
         self.root = os.path.realpath(root)
         self.order_key = order_key
         self.faults = [dict(f) for f in (faults or [])]
@@ -280,6 +286,7 @@ class Seam:
         self.zero_size = set(zero_size or ())  # rel paths whose st_size reads 0
         self.hook = hook                    # callable(seam, n, kind, rel) after each call
         self.default_dev = default_dev
+        self.order_alias = tuple(order_alias)   # replica prefixes that share one enumeration order
         self.events = []
         self.n = 0
         self.op_n = 0
@@ -498,7 +505,12 @@ class Seam:
         if self.order_key is None:
             entries.sort(key=lambda e: e.name)
         else:
-            ctx = rel + '#' + str(v)
+            crel = rel
+            for pref in self.order_alias:
+                if rel == pref or rel.startswith(pref + '/'):
+                    crel = rel[len(pref):]
+                    break
+            ctx = crel + '#' + str(v)
             entries.sort(key=lambda e: _h(self.order_key, ctx, e.name))
         return ScandirProxy(self, path, rel, entries)
 
